@@ -1,7 +1,7 @@
 #!/bin/bash
 # usage: seed_save.sh <ID> <n> "<what I ran / result>"
 ID=$1; N=$2; NOTE=$3
-M=/tmp/mut/$ID/mutation$N; D=/verif/seeded/$ID-$N
+M=${MUTROOT:-/tmp/mut}/$ID/mutation$N; D=/verif/seeded/$ID-$((N+${NOFF:-0}))
 mkdir -p $D; cp $M/patch.diff $D/; cp $M/demo*.rs $D/ 2>/dev/null
 python3 - "$M/meta.json" "$D/meta.json" "$ID" "$NOTE" <<'PY'
 import json,sys
